@@ -92,7 +92,14 @@ pub fn execute(bin: &Path, scratch: &Scratch, case: &Case) -> Result<Vec<RunReco
         }
         let expected = model::expected(&world, &inv.opts, inv.stdin.as_deref(), &as_read_failure);
         // … or, for a program that retries until the read succeeds, as no fault at all
-        let alt = if had_handle_faults { Some(model::expected(&world, &inv.opts, inv.stdin.as_deref(), &effective)) } else { None };
+        let mut alt = if had_handle_faults { Some(model::expected(&world, &inv.opts, inv.stdin.as_deref(), &effective)) } else { None };
+        // a directory with both `stylua.toml` and `.stylua.toml`: the documentation does not say
+        // which one is used, so the other precedence is an acceptable verdict as well
+        if alt.is_none() && !world.both_config_names().is_empty() {
+            let mut w2 = world.clone();
+            w2.dot_first = true;
+            alt = Some(model::expected(&w2, &inv.opts, inv.stdin.as_deref(), &as_read_failure));
+        }
         let next = world_after(&world, &run);
         recs.push(RunRecord { inv: inv.clone(), world: world.clone(), expected, alt, run });
         world = next;
@@ -293,6 +300,34 @@ pub fn check_case(property: &str, bin: &Path, scratch: &Scratch, case: &Case, rn
     let mut violations: Vec<(Violation, Vec<Case>)> =
         oracles_for(property, &recs).into_iter().map(|v| (v, vec![case.clone()])).collect();
     let mut records = recs;
+    if property == "C15" && !case.world.both_config_names().is_empty() {
+        // which of the two names wins may be either, but not a function of the listing order:
+        // the same case with the directory entries created in the opposite order
+        let base = outcome_of(&records);
+        let base_live = records.iter().all(|r| !crate::oracle::sim_reserved(r.run.status));
+        let mut c2 = case.clone();
+        c2.world.create_rev = !c2.world.create_rev;
+        match execute(bin, scratch, &c2) {
+            Err(e) => return CaseOutcome { violations, records, harness: Some(e) },
+            Ok(r2) => {
+                violations.extend(oracles_for(property, &r2).into_iter().map(|v| (v, vec![c2.clone()])));
+                let live = r2.iter().all(|r| !crate::oracle::sim_reserved(r.run.status));
+                if live && base_live && outcome_of(&r2) != base {
+                    let (class, detail) = describe_outcome_diff(&base, &outcome_of(&r2));
+                    violations.push((
+                        Violation {
+                            property: property.into(),
+                            class: format!("config/depends-on-directory-listing-order/{class}"),
+                            detail,
+                            inv_index: r2.len() - 1,
+                        },
+                        vec![case.clone(), c2.clone()],
+                    ));
+                }
+                records.extend(r2);
+            }
+        }
+    }
     if property == "C19" {
         // the same world and options under other schedules and thread counts
         let base = outcome_of(&records);
